@@ -36,6 +36,7 @@ func main() {
 	chunks := flag.Int("chunks", 1, "number of chunk files")
 	stats := flag.String("stats", "", "write replay statistics (JSON) here")
 	opsPath := flag.String("ops", "", "instead of edges: a plain list of operations (one trace; {\"op\":\"Reset\"} lines start new traces)")
+	preObserve := flag.Bool("preobserve", false, "with -edges: also observe the state BEFORE the operation of each trace (reads, then the write, then reads again)")
 	observe := flag.String("observe", "all", "with -ops: observe after \"all\" events or only the \"last\" of each trace")
 	flag.Parse()
 
@@ -143,8 +144,8 @@ func main() {
 		for _, ev := range setup {
 			emit(ev, false)
 		}
-		for _, i := range path {
-			emit(menu[i-1], false)
+		for n, i := range path {
+			emit(menu[i-1], *preObserve && n == len(path)-1)
 		}
 	}
 	for _, k := range order {
